@@ -83,7 +83,9 @@ theorem cnt_step {P : Params} {s : St} (h : Cnt P s) (c : Choice) : Cnt P (step 
   | fire => simp only [step]; split <;> constructor <;> simp_all <;> omega
   | startTrace => simp only [step]; split <;> constructor <;> simp_all <;> omega
   | other => simp only [step]; split <;> constructor <;> simp_all
+  | strayTrace => simp only [step]; split <;> constructor <;> simp_all
   | birth => simp only [step]; split <;> constructor <;> simp_all <;> omega
+  | spawnStray => simp only [step]; split <;> constructor <;> simp_all <;> omega
   | death => simp only [step]; split <;> constructor <;> simp_all <;> omega
 
 /-! ## What a monitor has counted never exceeds what the start events have reported -/
@@ -282,7 +284,21 @@ theorem monCnt_step {P : Params} {s : St} (h : MonCnt s) (c : Choice) : MonCnt (
       simp only [pendFor, mkPending, hpn.2] at this ⊢
       split <;> simp_all
     · exact ⟨hc, hn, hl⟩
+  | strayTrace =>
+    simp only [step]; split
+    · next hpn =>
+      refine ⟨?_, hn, hl⟩
+      intro k m hk
+      have := hc k m hk
+      simp at hpn
+      simp only [pendFor, mkPending, hpn.2] at this ⊢
+      split <;> simp_all
+    · exact ⟨hc, hn, hl⟩
   | birth =>
+    simp only [step]; split
+    · exact ⟨fun k m hk => by simpa [pendFor] using hc k m hk, hn, hl⟩
+    · exact ⟨hc, hn, hl⟩
+  | spawnStray =>
     simp only [step]; split
     · exact ⟨fun k m hk => by simpa [pendFor] using hc k m hk, hn, hl⟩
     · exact ⟨hc, hn, hl⟩
@@ -313,8 +329,10 @@ theorem quiet_step {P : Params} {s : St} (hc : Cnt P s) (hq : quiet P s) (c : Ch
                   exact ⟨q1, q2, q3⟩
   | other => simp only [step]; split; · omega
              exact ⟨q1, q2, q3⟩
+  | strayTrace => simp only [step]; split <;> exact ⟨q1, q2, q3⟩
   | birth => simp only [step]; split; · omega
              exact ⟨q1, q2, q3⟩
+  | spawnStray => simp only [step]; split <;> exact ⟨q1, q2, q3⟩
   | death => simp only [step]; split; · omega
              exact ⟨q1, q2, q3⟩
 
@@ -460,7 +478,9 @@ theorem monPc_step {P : Params} {s : St} (hC : Cnt P s) (hM : MonCnt s) (h : Mon
   | fire => apply frame; simp only [step]; split <;> rfl
   | startTrace => apply frame; simp only [step]; split <;> rfl
   | other => apply frame; simp only [step]; split <;> rfl
+  | strayTrace => apply frame; simp only [step]; split <;> rfl
   | birth => apply frame; simp only [step]; split <;> rfl
+  | spawnStray => apply frame; simp only [step]; split <;> rfl
   | death => apply frame; simp only [step]; split <;> rfl
 
 /-! ## The completion lock and the shape of the remaining starter program -/
@@ -718,7 +738,9 @@ theorem lockInv_step {P : Params} {s : St} (h : LockInv s) (c : Choice) : LockIn
   | fire => simp only [step]; split <;> exact ⟨hm, hh, hw, hp, hs⟩
   | startTrace => simp only [step]; split <;> exact ⟨hm, hh, hw, hp, hs⟩
   | other => simp only [step]; split <;> exact ⟨hm, hh, hw, hp, hs⟩
+  | strayTrace => simp only [step]; split <;> exact ⟨hm, hh, hw, hp, hs⟩
   | birth => simp only [step]; split <;> exact ⟨hm, hh, hw, hp, hs⟩
+  | spawnStray => simp only [step]; split <;> exact ⟨hm, hh, hw, hp, hs⟩
   | death => simp only [step]; split <;> exact ⟨hm, hh, hw, hp, hs⟩
 
 /-! ## The log: one cease trace per monitor that got that far, and nothing but cease traces after the first -/
@@ -820,7 +842,7 @@ theorem logInv_step {P : Params} {s : St} (hC : Cnt P s) (hP : MonPc P s) (hK : 
             simp only [e1, e2] at this
             simp at this
             omega
-          · exact ⟨fun _ => rfl, h2⟩
+          · exact ⟨fun _ => Or.inl rfl, h2⟩
         · exact ⟨h1, h2⟩
       · next hpc => exact same k0 m0 _ _ hm0 rfl rfl (by simp [hpc, MPc.pastCease])
       · exact ⟨h1, h2⟩
@@ -841,6 +863,7 @@ theorem logInv_step {P : Params} {s : St} (hC : Cnt P s) (hP : MonPc P s) (hK : 
   | call => exact frame rfl rfl
   | fire => apply frame <;> (simp only [step]; split <;> rfl)
   | birth => apply frame <;> (simp only [step]; split <;> rfl)
+  | spawnStray => apply frame <;> (simp only [step]; split <;> rfl)
   | death => apply frame <;> (simp only [step]; split <;> rfl)
   | startTrace =>
     simp only [step]; split
@@ -858,6 +881,10 @@ theorem logInv_step {P : Params} {s : St} (hC : Cnt P s) (hP : MonPc P s) (hK : 
       intro hce
       have hq := quiet_of_cease ⟨h1, h2⟩ hP hce
       unfold quiet at hq; omega
+    · exact ⟨h1, h2⟩
+  | strayTrace =>
+    simp only [step]; split
+    · exact ⟨by simpa [ceases, List.count_cons] using h1, fun _ => Or.inr rfl, h2⟩
     · exact ⟨h1, h2⟩
 
 /-! ## Calls -/
@@ -884,7 +911,9 @@ theorem log_mono {P : Params} {s : St} (c : Choice) {t : Trace} (h : t ∈ s.log
   | fire => simp only [step]; split <;> simp [h]
   | startTrace => simp only [step]; split <;> simp [h]
   | other => simp only [step]; split <;> simp [h]
+  | strayTrace => simp only [step]; split <;> simp [h]
   | birth => simp only [step]; split <;> simp [h]
+  | spawnStray => simp only [step]; split <;> simp [h]
   | death => simp only [step]; split <;> simp [h]
 
 theorem prog_nil_stable {P : Params} {s : St} (c : Choice) (h : s.prog = []) : (step P s c).prog = [] := by
@@ -899,7 +928,9 @@ theorem prog_nil_stable {P : Params} {s : St} (c : Choice) (h : s.prog = []) : (
   | fire => simp only [step]; split <;> simp [h]
   | startTrace => simp only [step]; split <;> simp [h]
   | other => simp only [step]; split <;> simp [h]
+  | strayTrace => simp only [step]; split <;> simp [h]
   | birth => simp only [step]; split <;> simp [h]
+  | spawnStray => simp only [step]; split <;> simp [h]
   | death => simp only [step]; split <;> simp [h]
 
 /-- after `StartAll` returned, a free lock means some monitor has emitted the cease trace -/
@@ -933,7 +964,9 @@ theorem waitInv_step {P : Params} {s : St} (hK : LockInv s) (hL : LogInv s) (h :
   | fire => apply frame; simp only [step]; split <;> rfl
   | startTrace => apply frame; simp only [step]; split <;> rfl
   | other => apply frame; simp only [step]; split <;> rfl
+  | strayTrace => apply frame; simp only [step]; split <;> rfl
   | birth => apply frame; simp only [step]; split <;> rfl
+  | spawnStray => apply frame; simp only [step]; split <;> rfl
   | death => apply frame; simp only [step]; split <;> rfl
   | call =>
     simp only [step]
@@ -1142,7 +1175,9 @@ theorem monsLen_step (P : Params) (s : St) (c : Choice) :
   | fire => simp only [step]; split <;> rfl
   | startTrace => simp only [step]; split <;> rfl
   | other => simp only [step]; split <;> rfl
+  | strayTrace => simp only [step]; split <;> rfl
   | birth => simp only [step]; split <;> rfl
+  | spawnStray => simp only [step]; split <;> rfl
   | death => simp only [step]; split <;> rfl
 
 theorem monsLen_reachable {P : Params} (hn : 1 ≤ P.n) {s : St} (h : Reachable P s) :
@@ -1156,5 +1191,64 @@ theorem monsLen_reachable {P : Params} (hn : 1 ≤ P.n) {s : St} (h : Reachable 
     | cons c cs ih => intro s0; exact (ih (step P s0 c)).trans (monsLen_step P s0 c)
   rw [this sched (init P)]
   simp [init, subCount_program_eq P hn]
+
+/-! ## Without detached senders every trace comes from a live token or a monitor -/
+
+def NoStray (s : St) : Prop := s.strays = 0 ∧ Trace.stray ∉ s.log
+
+theorem noStray_step {P : Params} (hd : P.detached = false) {s : St} (h : NoStray s) (c : Choice) :
+    NoStray (step P s c) := by
+  obtain ⟨h1, h2⟩ := h
+  cases c with
+  | starter => simp only [step, stepStarter, NoStray]; repeat' split
+               all_goals exact ⟨h1, h2⟩
+  | mon k =>
+    simp only [step, stepMon, NoStray]
+    repeat' split
+    all_goals first | exact ⟨h1, h2⟩ | exact ⟨h1, by simpa using h2⟩
+  | deliver => simp only [step, stepDeliver, NoStray]; repeat' split
+               all_goals exact ⟨h1, h2⟩
+  | helper w => simp only [step, stepHelper, NoStray]; repeat' split
+                all_goals exact ⟨h1, h2⟩
+  | recv w => simp only [step, stepRecv, NoStray]; repeat' split
+              all_goals exact ⟨h1, h2⟩
+  | expire w => simp only [step, stepExpire, NoStray]; repeat' split
+                all_goals exact ⟨h1, h2⟩
+  | call => exact ⟨h1, h2⟩
+  | fire => simp only [step, NoStray]; split <;> exact ⟨h1, h2⟩
+  | birth => simp only [step, NoStray]; split <;> exact ⟨h1, h2⟩
+  | death => simp only [step, NoStray]; split <;> exact ⟨h1, h2⟩
+  | startTrace => simp only [step, NoStray]; split
+                  · exact ⟨h1, by simpa using h2⟩
+                  · exact ⟨h1, h2⟩
+  | other => simp only [step, NoStray]; split
+             · exact ⟨h1, by simpa using h2⟩
+             · exact ⟨h1, h2⟩
+  | spawnStray => simp only [step, hd, NoStray]; simp; exact ⟨h1, h2⟩
+  | strayTrace => simp only [step, h1, NoStray]; simp; exact ⟨h1, h2⟩
+
+theorem noStray_reachable {P : Params} (hd : P.detached = false) {s : St} (h : Reachable P s) : NoStray s := by
+  obtain ⟨sched, rfl⟩ := h
+  have : ∀ (sched : List Choice) (s0 : St), NoStray s0 → NoStray (run P s0 sched) := by
+    intro sched
+    induction sched with
+    | nil => intro s0 h; exact h
+    | cons c cs ih => intro s0 h; exact ih _ (noStray_step hd h c)
+  exact this sched (init P) ⟨rfl, by simp [init]⟩
+
+/-- a log without stray traces in which nothing but cease traces follows the first cease -/
+def LogStrict : List Trace → Prop
+  | [] => True
+  | t :: r => (Trace.cease ∈ r → t = .cease) ∧ LogStrict r
+
+theorem logStrict_of {l : List Trace} (h : LogOk l) (hs : Trace.stray ∉ l) : LogStrict l := by
+  induction l with
+  | nil => trivial
+  | cons t r ih =>
+    simp only [List.mem_cons, not_or] at hs
+    refine ⟨fun hc => ?_, ih h.2 hs.2⟩
+    rcases h.1 hc with e | e
+    · exact e
+    · exact absurd e.symm hs.1
 
 end Bpmn.Model.Completion
